@@ -428,7 +428,29 @@ func levelHandlesGuarded(c *core.Ctx) {
 								}
 								return core.ExprString(be.X), be.Op == token.NEQ, true
 							}
-							if holds, _ := formulaImplies(f, fm, classify, func(v map[string]bool) bool { return !v[want] }); holds {
+							// the implication is only meaningful when the path condition talks about this pointer at all
+							mentions := false
+							var scan func(x *core.Formula)
+							scan = func(x *core.Formula) {
+								if x == nil {
+									return
+								}
+								if x.Atom != nil {
+									ast.Inspect(x.Atom, func(m ast.Node) bool {
+										if be, ok := m.(*ast.BinaryExpr); ok {
+											if nm, _, ok := classify(be); ok && nm == want {
+												mentions = true
+											}
+										}
+										return true
+									})
+								}
+								for _, sub := range x.Sub {
+									scan(sub)
+								}
+							}
+							scan(fm)
+							if holds, _ := formulaImplies(f, fm, classify, func(v map[string]bool) bool { return !v[want] }); holds && mentions {
 								okNN = true
 							}
 						}
